@@ -78,6 +78,20 @@ def _case(draw):
                     avail_names = [d2[1] for d2 in spec["decls"] if d2[0] == "parameter" and "ia" not in d2[2]]
                     h["fn"] = {**h["fn"], "module": "rates_c", "n": rates_c.ARITY[h["fn"]["name"]]}
                     h["args"] = [*h["args"], draw(st.sampled_from(avail_names))]
+    # the same __name__ with two arities inside one model, identical bodies up to argument names
+    if draw(st.integers(0, 5)) == 0:
+        nm = draw(st.sampled_from(sorted(rates_c.ARITY)))
+        pars = [d2[1] for d2 in spec["decls"] if d2[0] == "parameter" and "ia" not in d2[2]]
+        a_short = [draw(st.sampled_from(pars)) for _ in range(rates.ARITY[nm])]
+        a_long = [draw(st.sampled_from(pars)) for _ in range(rates_c.ARITY[nm])]
+        two = [
+            ["derived", "dz0", {"fn": gs.lib(nm), "args": a_short}],
+            ["derived", "dz1", {"fn": {**gs.lib(nm), "module": "rates_c", "n": rates_c.ARITY[nm]}, "args": a_long}],
+        ]
+        if draw(st.booleans()):
+            two.reverse()
+        for d2 in two:
+            spec["decls"].insert(draw(st.integers(0, len(spec["decls"]))), d2)
     unt = draw(st.integers(0, 11)) == 0
     if unt:
         for d in spec["decls"]:
@@ -122,10 +136,11 @@ def examine(case: dict, ctx) -> Outcome:
         by_name.setdefault(name, set()).add(mod)
     shared = any(len(a) >= 2 for a in by_fn.values())
     collision = any(len(m) >= 2 for m in by_name.values())
+    arity_collision = any({"rates", "rates_c"} <= m for m in by_name.values())
     mathuser = any(name in MATH_FNS for _, name, _ in uses)
     dup_args = any(len(set(a)) < len(a) for _, _, a in uses)
     has_ia = any(k in ("variable", "parameter") and "ia" in p for k, _, p in spec["decls"])
-    out.classes = [c for c, f in [("shared_function", shared), ("name_collision", collision), ("math_user", mathuser), ("repeated_argument", dup_args), ("initial_assignment", has_ia), ("untranslatable", case["untranslatable"])] if f]
+    out.classes = [c for c, f in [("shared_function", shared), ("name_collision", collision), ("same_name_two_arities", arity_collision), ("math_user", mathuser), ("repeated_argument", dup_args), ("initial_assignment", has_ia), ("untranslatable", case["untranslatable"])] if f]
     root = "name-collision" if collision else ("math-user" if mathuser else ("repeated-argument" if dup_args else ("shared-function" if shared else ("initial-assignment" if has_ia else "plain"))))
 
     try:
@@ -200,7 +215,7 @@ def examine(case: dict, ctx) -> Outcome:
 
 def floors(ctx) -> list[str]:
     c = []
-    for k in ["shared_function", "name_collision", "math_user", "initial_assignment", "untranslatable", "repeated_argument"]:
+    for k in ["shared_function", "name_collision", "same_name_two_arities", "math_user", "initial_assignment", "untranslatable", "repeated_argument"]:
         if ctx.classes.get(k, 0) < 8:
             c.append(f"class {k} only {ctx.classes.get(k, 0)}")
     return c
